@@ -68,6 +68,22 @@ func scenC04(e *Env) func() {
 		}
 		p.Callers = append(p.Callers, calls)
 	}
+	if p.Client != "pipeline" && e.Chance(30) {
+		// flavour: a streamed body closed early, its tail (a well-formed response)
+		// arriving while the connection sits in the pool, then another call
+		p.MaxConns = 1
+		// the body must exceed what the client prefetches before Do returns:
+		// MaxResponseBodySize when set, 8 KiB otherwise
+		p.MaxBody = Pick(e, 100, 100, 0)
+		first := c04Call{ID: "e-0", Method: Pick(e, "GET", "POST"), API: "do", Stream: true, ReadBytes: Pick(e, 0, 1, 5, 50),
+			Act: srvAction{Status: 200, BodyLen: Pick(e, 400, 1000, 3000), Framing: "cl", TailLen: Pick(e, 80, 100, 120), TailMs: Pick(e, 100, 500), FakeTail: true}}
+		if p.MaxBody == 0 {
+			first.Act.BodyLen = Pick(e, 9000, 12000)
+		}
+		second := c04Call{ID: "e-1", Method: Pick(e, "GET", "POST"), API: Pick(e, "do", "timeout"), TimeoutMs: 5000, GapMs: Pick(e, 700, 2000),
+			Act: srvAction{Status: 200, BodyLen: 20, Framing: "cl"}}
+		p.Callers = [][]c04Call{{first, second}}
+	}
 	e.Sample = p
 	e.Cfg.Holds, e.Cfg.HoldMax = Pick(e, 0, 0, 2), 100*time.Millisecond
 	e.Cfg.PoolAdversarial = e.Chance(30)
